@@ -77,6 +77,10 @@ pub struct ScalarCfg {
     pub map: BTreeMap<String, ScalarTs>,
     /// scalars configured through a @nitrogql_ts_type directive in the SDL instead of the config
     pub via_directive: BTreeSet<String>,
+    /// scalars configured in the config file that ALSO carry a @nitrogql_ts_type directive with other
+    /// types: the configuration takes precedence (schema_type_printer/context.rs: "If scalarType is
+    /// provided, it takes precedence"), so the directive's types must not show anywhere
+    pub decoy_directive: BTreeMap<String, ScalarTs>,
 }
 
 pub const TS_POOL: &[&str] = &[
@@ -92,11 +96,22 @@ impl ScalarCfg {
         map.insert("Int".to_string(), ScalarTs::Single("number".into()));
         map.insert("Float".to_string(), ScalarTs::Single("number".into()));
         map.insert("Boolean".to_string(), ScalarTs::Single("boolean".into()));
-        ScalarCfg { map, via_directive: BTreeSet::new() }
+        ScalarCfg { map, via_directive: BTreeSet::new(), decoy_directive: BTreeMap::new() }
     }
     /// random configuration for the custom scalars of `s`
     pub fn generate(ch: &mut Choices, s: &Schema, allow_directive: bool) -> ScalarCfg {
         let mut cfg = ScalarCfg::builtin();
+        // the configuration may also re-map built-in scalars (documented: `scalarTypes` accepts any
+        // scalar name; e.g. ID: string, Int: {send: "number | bigint", receive: number})
+        if ch.chance(1, 3) {
+            let b = *ch.pick(&["ID", "String", "Int", "Float", "Boolean"]);
+            let c = if ch.flip() {
+                ScalarTs::Single(ch.pick(TS_POOL).to_string())
+            } else {
+                ScalarTs::SendReceive { send: ch.pick(TS_POOL).to_string(), receive: ch.pick(TS_POOL).to_string() }
+            };
+            cfg.map.insert(b.to_string(), c);
+        }
         for t in s.of_kind(Kind::Scalar) {
             let c = match ch.below(3) {
                 0 => ScalarTs::Single(ch.pick(TS_POOL).to_string()),
@@ -119,6 +134,19 @@ impl ScalarCfg {
                 cfg.map.insert(t.name.clone(), sep);
                 cfg.via_directive.insert(t.name.clone());
             } else {
+                if allow_directive && ch.chance(1, 4) {
+                    let pick = |ch: &mut Choices, avoid: &str| -> String {
+                        let v = ch.pick(TS_POOL).to_string();
+                        if v == avoid { "symbol".to_string() } else { v }
+                    };
+                    let decoy = ScalarTs::Separate {
+                        resolver_input: pick(ch, c.get(Target::ResolverInput)),
+                        resolver_output: pick(ch, c.get(Target::ResolverOutput)),
+                        operation_input: pick(ch, c.get(Target::OperationInput)),
+                        operation_output: pick(ch, c.get(Target::OperationOutput)),
+                    };
+                    cfg.decoy_directive.insert(t.name.clone(), decoy);
+                }
                 cfg.map.insert(t.name.clone(), c);
             }
         }
@@ -136,10 +164,15 @@ impl ScalarCfg {
     }
     /// SDL directive to attach to scalars configured via directive
     pub fn directive_for(&self, scalar: &str) -> Option<MDirective> {
-        if !self.via_directive.contains(scalar) {
-            return None;
-        }
-        let c = &self.map[scalar];
+        let c = match self.decoy_directive.get(scalar) {
+            Some(d) => d,
+            None => {
+                if !self.via_directive.contains(scalar) {
+                    return None;
+                }
+                &self.map[scalar]
+            }
+        };
         Some(MDirective {
             name: "nitrogql_ts_type".into(),
             args: vec![
